@@ -211,6 +211,15 @@ ChkFont(e) ==
                                             ImgBox(N, D, e.all[i]))
                            \* TrueType: the matrix applied to the glyph box of the font data
                            /\ (e.fm_known /\ e.fkind = "ttf" /\ e.npts[i] # 0) => NearBox(e.q_boxpdf[i], ImgBox(N, D, box[i])),
+      \* the two box queries agree with each other: the PDF box is the matrix image of the design-unit box, which
+      \* is rounded outward to integers (so the image of the box shrunk by one unit is the inner bound); without
+      \* shear, where the image of a box is a box
+      glyph_bbox_agree |-> \A i \in 1..n :
+                             (e.fm_known /\ e.fkind # "ttf" /\ ~Sheared(N) /\ e.npts[i] > 0
+                              /\ box[i][1] < box[i][3] /\ box[i][2] < box[i][4]) =>          \* boxes with an area
+                                SandwichPDF(e.q_boxpdf[i],
+                                            ImgBox(N, D, <<box[i][1] + 1, box[i][2] + 1, box[i][3] - 1, box[i][4] - 1>>),
+                                            ImgBox(N, D, box[i])),
       font_bbox_pdf |-> LET nz == {i \in 1..n : e.q_boxpdf[i] # Zero4} IN
                         nz # {} => NearBox(e.q_fboxpdf, UnionBox(e.q_boxpdf)),
       fixed_pitch   |-> FixedPitchOK(e.q_fixed, e.wq),
